@@ -74,6 +74,9 @@ CONF_KEYS = ["c32.alpha", "c32.beta", "c32_gamma"]
 CONF_VALUES = ["v1", "two words", "ünï", "a=b", "x,y", 'with "quote"', "#hash", "100%", "", "True"]
 TAG_NAMES = ["t1", "t2", "rel 1.0", "étiquette"]
 VERB_CLASSES = ["read", "idem", "semi", "stream", "mutate", "semivfs"]
+# branch.conf-backed values: a local branch object keeps changes in memory until its write
+# lock is released, the server writes through on every verb; compared when unlocked only
+DEFERRED = ("conf", "parent", "stacked")
 # verb classes an operation is expected to use (only to aim resets; nothing is judged by it)
 OP_CLASSES = {
     "commit": ["read", "idem", "semi", "mutate", "semivfs", "semivfs"],
@@ -738,7 +741,13 @@ def execute(sim, plan):
             obs_b = observe(B, names, mh, seen_b)
             check_readable(obs_b, "B", opk)
             ca_pre, ca_post, cb = components(pre_a), components(obs_a), components(obs_b)
-            bad = [c for c in sorted(set(cb) | set(ca_post)) if cb.get(c) != ca_post.get(c) and cb.get(c) != ca_pre.get(c)]
+            skip = set()
+            for c in set(cb) | set(ca_post) | set(ca_pre):
+                if A_unlocked and c.rpartition(".")[2] in DEFERRED:
+                    skip.add(c)  # A's pre-state on disk was stale while it held the lock
+                if opk == "stack" and (c == op["name"] or c.startswith(op["name"] + ".")):
+                    skip.add(c)  # a half-created new branch is an intermediate state of the operation
+            bad = [c for c in sorted(set(cb) | set(ca_post)) if c not in skip and cb.get(c) != ca_post.get(c) and cb.get(c) != ca_pre.get(c)]
             if bad:
                 sim.fail(
                     "pre_or_post",
@@ -747,13 +756,21 @@ def execute(sim, plan):
                 )
             for nm in names:
                 o = obs_b.get(nm)
+                if opk == "stack" and nm == op["name"]:
+                    continue
                 if o and o["tip"][1] != "null:" and o["tip"][1] not in (obs_b["revs"] if nm == "br" else o["revs"]):
                     sim.fail("pre_or_post", ["pre_or_post", opk] + tag + ["tip-not-present"], f"op {i} {opk}: after the failed operation B's branch {nm} points at {o['tip']} which is not in the repository")
             A.open()
             B.open()
-            if cb != ca_post and opk not in ("lock", "unlock"):
+            if obs_diff(obs_a, obs_b) and opk not in ("lock", "unlock"):
                 sim.probe("relaxed_pre_state_rerun")
                 redo = op
+                if opk == "stack" and obs_b.get(op["name"]) != obs_a.get(op["name"]):
+                    # rm -r of the half-created branch directory, then the operation again
+                    t = get_transport(url_b)
+                    if t.has(op["name"]):
+                        t.delete_tree(op["name"])
+                    sim.probe("relaxed_partial_branch_removed")
                 if opk == "commit" and op["spec"]["id"] in obs_b["revs"]:
                     redo = {"op": "set_last", "revno": obs_a["br"]["tip"][0], "rev": op["spec"]["id"]}
                 rb2 = B.run(redo)
@@ -786,7 +803,7 @@ def execute(sim, plan):
                         f"op {i} {op}: Repository.get_parent_map locally returns {{'null:': ()}} among {norm(ra)!r}; RemoteRepository.get_parent_map returns {norm(rb)!r} (no entry for null:)",
                     )
             sim.fail("result_mismatch", ["result_mismatch", opk, "value"] + (tag if fired else [mode]), f"op {i} {op}: local returned {norm(ra)!r:.800}, through the server {norm(rb)!r:.800}; verbs {watch.op_verbs}")
-        d = obs_diff(obs_a, obs_b)
+        d = obs_diff(obs_a, obs_b, ignore=DEFERRED if A.depth else ())
         if d:
             sim.fail(
                 "state_mismatch",
